@@ -42,4 +42,7 @@ def run(eng, ctx):
     TR.scoping(eng, ctx, "C10.D3")
     TR.dispatch(eng, ctx, "C10.D4")
     SH.constructor_admission(eng, ctx, "C15.D6")  # every framed payload of >= 2 bytes is admitted by the constructor
+    from . import decoder as DEC
+
+    DEC.conversion_total(eng, ctx, "C02.D8")  # ... and no field conversion fails on particular field contents
     ctx.instance("foreign-protocol branches", 2, 2)
